@@ -20,7 +20,7 @@ ASSUMPTIONS = ["the auto-naming scheme is not prescribed: names are read back; o
 TIERS = {"quick": {"shards": 8, "budget_s": 100}, "thorough": {"shards": 16, "budget_s": 300}}
 REQUIRE = {"text-route-with-random-layout-and-comments": 1500, "qsyntax-functions-called-twice": 1500, "programs": 1500, "anonymous-let": 300, "anonymous-register": 300, "user-name-like-auto-name": 200,
            "implicit-wrap-expected": 300, "no-wrap-expected": 300, "pairs-compared": 4000, "subcircuit-with-count": 100,
-           "full:programs": 1000, "full:macro-eager": 300, "full:loop-eager": 100, "full:map-eager": 200, "full:behaviour-compared": 3000,
+           "full:programs": 1000, "full:near-twin-number-literals": 150, "full:macro-eager": 300, "full:loop-eager": 100, "full:map-eager": 200, "full:behaviour-compared": 3000,
            "full:eager-macro-calling-macro": 100}
 
 
@@ -527,7 +527,16 @@ def shard(ctx):
             rng = ctx.rng
             g = gen.ProgGen(rng, p_hostile_names=0.0, max_depth=rng.choice([2, 3]), wild_numbers=False, macro_sub=rng.random() < 0.5,
                             n_macros=(1, 4), p_usepulses=0.2)
-            process_full(ctx, {"prog": g.program(), "bseed": rng.randrange(1 << 30), "lseed": rng.randrange(1 << 30) if rng.random() < 0.5 else None}, seen)
+            fp = g.program()
+            if rng.random() < 0.25:
+                # two macros whose bodies differ only in how one number is written (1 / 1.0, 0.0 / -0.0): whichever parts a
+                # front end builds together or apart, each keeps its own literal
+                a, b = rng.choice([(1, 1.0), (1.0, 1), (0.0, -0.0), (-1, -1.0), (0, 0.0), (2, 2.0)])
+                hdr_end = max([k for k, x in enumerate(fp) if isinstance(x, tuple) and x[0] in sx.HEADER] + [0])
+                fp = fp[:hdr_end + 1] + (("macro", "tw1", ("sequential_block", ("gate", "tw", a))),
+                                         ("macro", "tw2", ("sequential_block", ("gate", "tw", b)))) + fp[hdr_end + 1:]
+                rec.count("full:near-twin-number-literals")
+            process_full(ctx, {"prog": fp, "bseed": rng.randrange(1 << 30), "lseed": rng.randrange(1 << 30) if rng.random() < 0.5 else None}, seen)
     monitors.report_contracts(rec)
 
 
